@@ -121,6 +121,7 @@ def plant(rng, prog, n_err, n_warn):
     """Insert planted faults at statement boundaries (never after a terminating .end)."""
     planted = []
     late = [f for f in ERROR_FAULTS if f[0] in LATE_TAGS]
+    late += [f for f in ERROR_FAULTS if f[0].startswith("unused-bad")] * 3
     for pool, n in ((ERROR_FAULTS, n_err), (WARNING_FAULTS, n_warn), (late, 1 if n_err == -1 else 0)):
         for _ in range(max(n, 0)):
             tag, phase, sev, text = rng.choice(pool)
@@ -260,7 +261,7 @@ def make_cli_case(rng, profile=None, n_err=None, n_warn=None, allow_stdin=True, 
     prog = g.program(CWD)
     if n_err is None:
         n_err = rng.choice([0, 0, 0, 1, 1, 2, 3])
-        if rng.random() < 0.08:
+        if rng.random() < 0.12:
             n_err = -1          # exactly one late-discovered error
     if n_warn is None:
         n_warn = rng.choice([0, 0, 1, 1, 2, 3])
